@@ -33,7 +33,7 @@ _hs("ClientHello", lambda: M.ClientHello(),
     [3 + 34 + 1 + 2 + 1 + k for k in range(0, 12)], fixed_prefix=0)
 _hs("ServerHello", lambda: M.ServerHello(),
     [3 + 34 + 1 + 2 + 1 + k for k in (0, 2, 6, 8)],
-    [3 + 34 + 1 + 2 + 1 + k for k in range(0, 17)])
+    [3 + 34 + 1 + 2 + 1 + k for k in range(0, 13)])
 _hs("Certificate12", lambda: M.Certificate(CertificateType.x509, (3, 3)),
     [3, 6, 9, 12], range(3, 20))
 _hs("Certificate13", lambda: M.Certificate(CertificateType.x509, (3, 4)),
